@@ -6,21 +6,41 @@ CFG = {
     "stateful": False,
     "trivial_prefix": ("-\t",),
     "rule": "enc: every ordered pair of the 128 attribute masks (all pairs for EncodeCells in quick, for all nine "
-            "producer configurations in thorough) combined with colour classes (default, 0-7, 8-15, 16-255, RGB)^3 "
-            "and the 6 underline styles paired along, all 125x125 class pairs x 36 underline-style pairs sampled "
-            "(quick) / enumerated for the two codecs (thorough), every index colour, random cell sequences; "
-            "dec: every first parameter 0..110 alone and with sub-parameters, the producers' whole range, every "
-            "truncation of the extended-colour forms, random parameter lists (with non-numeric junk for "
-            "NewStyledString) through real strings and the real ansi parser into ParseStyledString, NewStyledString "
-            "and the emulator pen; rt: random cell sequences through both codecs. distinct = distinct op line",
+            "producer configurations — EncodeCells, StyledString.Encode, render x {rgb, styledUnderlines}, legacy "
+            "quirk on/off — in thorough) combined with colour classes (default, 0-7, 8-15, 16-255, RGB)^3 and the 6 "
+            "underline styles paired along; all 125x125 class pairs x 36 underline-style pairs sampled (quick) / "
+            "enumerated for the two codecs and sampled 1/12 for the renderer (thorough); every index colour; random "
+            "cell sequences; out-of-range styles (model ≡ code only). dec: every first parameter 0..110 alone and "
+            "with sub-parameters from an empty and two busy pens, the producers' whole range, producer-like streams, "
+            "every truncation of the extended-colour forms, random parameter lists (with non-numeric junk for "
+            "NewStyledString), all through real strings (and the real ansi parser) into ParseStyledString, "
+            "NewStyledString and the emulator pen. rt: random cell sequences and single-field transitions through "
+            "both codecs. distinct = distinct op line",
     "trusted_base": ["A-concat: the ansi parser / uniseg split the concatenated string back into the SGR sequences and the "
-                     "graphemes it was built from (graphemes are opaque tokens in the model; checked by running the real "
+                     "graphemes it was built from (graphemes are opaque tokens in the model; exercised by running the real "
                      "functions on real strings)",
-                     "string level of NewStyledString (split on ; and :, strconv.Atoi) and the parser's decimal accumulation are "
-                     "executable driver code validated by correspondence only"],
+                     "string level of NewStyledString (split on ; and :, strconv.Atoi, exact string case labels) and the "
+                     "parser's decimal accumulation are executable driver code validated by correspondence only",
+                     "Spec.sgr (Spec/Sgr.lean, written from ECMA-48 / xterm ctlseqs) as the meaning of SGR; "
+                     "shown / shownCaps (Model/Sgr.lean) as the terminal-level meaning of a vaxis Style",
+                     "extractor cmd/C18: SGR templates parsed from the string constants by the extractor (fails closed)"],
     "assumptions": ["styles are well formed: colours built by IndexColor/RGBColor or default, attribute mask over the seven "
-                    "defined bits, underline style 0..5, no hyperlink; graphemes non-empty and self-delimiting"],
-    "level_text": "SGR codecs: see level_note",
-    "level_note": "see notes/C18.md",
+                    "defined bits, underline style 0..5, no hyperlink; graphemes non-empty and self-delimiting",
+                    "SGR parameters are < 2^63 (the ansi parser's int accumulation does not overflow)"],
+    "level_text": "SGR codecs and producer/consumer agreement: for all attribute-mask pairs (per-bit proof), all colours and "
+                  "underline styles, all cell sequences: the sequences EncodeCells / StyledString.Encode / render write mean "
+                  "(under Spec.sgr) exactly the next style (attr_delta, pen_delta_correct_*, encoded_shows_*, "
+                  "render_frame_shows); every producible sequence is understood as the spec says by parseSGR, the embedded "
+                  "terminal and NewStyledString (consumer_refines_spec_*, producers_consumers_agree), with decide-checked "
+                  "label coverage over the regenerated case labels; parse∘encode = id for both codecs on token sequences "
+                  "(roundtrip_cells, roundtrip_ss) and the pen is reset at the end (ends_reset_*); no consumer panics on any "
+                  "list of non-empty parameter lists (sgr_total, sgr_total_ss).",
+    "level_note": "Proved for all inputs on the model (38 theorems, axioms propext/Classical.choice/Quot.sound only). False of "
+                  "the current code and proved so: NewStyledString on the legacy semicolon colour forms (F118, Witness/F118, "
+                  "known finding). Fixed in /repo: F48 (NewStyledString case 59), F35 (emulator case 59). Validated by "
+                  "correspondence only: byte level (format strings → parameter lists through the real ansi parser; string "
+                  "splitting / Atoi of NewStyledString), grapheme segmentation (A-concat), what each handled label does "
+                  "(the set of labels and arities is extracted). Modelled not verified: hyperlinks (OSC 8) are left out; "
+                  "cell widths are not compared.",
     "timeout": 1800,
 }
